@@ -81,6 +81,10 @@ func parseCIDRorMask(s string, sepIdx int) *IPRange {
 
 	maskAsIP := net.ParseIP(s[sepIdx+1:])
 	prefixLen, prefixLenErr := strconv.Atoi(s[sepIdx+1:])
+	if prefixLenErr == nil && (s[sepIdx+1] == '+' || s[sepIdx+1] == '-') {
+		// Atoi takes a sign, prefix length has none ("/-0" is not the whole address space)
+		prefixLenErr = strconv.ErrSyntax
+	}
 
 	addrLen := len(addr)
 	if addr.To4() != nil {
